@@ -1080,6 +1080,9 @@ class PyCdlib:
                 new_record = dr.DirectoryRecord()
                 rr = new_record.parse(vd, data[offset:offset + lenbyte],
                                       dir_record)
+                # Where this record is in the file that was opened (the order
+                # of the records there need not be the one we would use).
+                new_record.orig_record_pos = dir_record.extent_location() * self.logical_block_size + offset
                 offset += lenbyte
 
                 # Read the continuation area (if any) first, since the entries
@@ -4921,9 +4924,13 @@ class PyCdlib:
                     self.joliet_vd.add_to_space_size(length)
                 if record.parent is None:
                     raise pycdlibexception.PyCdlibInternalError('Modifying file with empty parent')
-                abs_extent_loc = record.parent.extent_location() + record.extents_to_here - 1
-                offset = record.offset_to_here - record.dr_len
-                abs_offset = abs_extent_loc * self.logical_block_size + offset
+                if record.orig_record_pos >= 0:
+                    # The place the record was read from.
+                    abs_offset = record.orig_record_pos
+                else:
+                    abs_extent_loc = record.parent.extent_location() + record.extents_to_here - 1
+                    offset = record.offset_to_here - record.dr_len
+                    abs_offset = abs_extent_loc * self.logical_block_size + offset
             elif isinstance(record, udfmod.UDFFileEntry):
                 abs_offset = record.extent_location() * self.logical_block_size
             else:
